@@ -84,7 +84,7 @@ pub fn trace_line(line: &str) -> Result<String, String> {
         let mut stack: Vec<u32> = out_nodes.clone();
         for g in &a.guards {
             match g {
-                Guard::Eq(x, y, _) | Guard::Lt(x, y, _) | Guard::Le(x, y, _) => stack.extend([*x, *y]),
+                Guard::Eq(x, y, _) | Guard::Lt(x, y, _) | Guard::Le(x, y, _) | Guard::Cmp(x, y, _) => stack.extend([*x, *y]),
                 Guard::AbsDiff(x, y, e, _) | Guard::Ulps(x, y, e, _, _) => stack.extend([*x, *y, *e]),
                 Guard::Rel(x, y, e, m, _) => stack.extend([*x, *y, *e, *m]),
             }
@@ -121,6 +121,7 @@ pub fn trace_line(line: &str) -> Result<String, String> {
             Guard::Eq(x, y, r) => format!(".eq {} {} {}", nm(*x), nm(*y), r),
             Guard::Lt(x, y, r) => format!(".lt {} {} {}", nm(*x), nm(*y), r),
             Guard::Le(x, y, r) => format!(".le {} {} {}", nm(*x), nm(*y), r),
+            Guard::Cmp(x, y, r) => format!(".cmp {} {} .{}", nm(*x), nm(*y), match r { -1 => "lt", 0 => "eq", _ => "gt" }),
             Guard::AbsDiff(x, y, e, r) => format!(".absDiff {} {} {} {}", nm(*x), nm(*y), nm(*e), r),
             Guard::Rel(x, y, e, m, r) => format!(".rel {} {} {} {} {}", nm(*x), nm(*y), nm(*e), nm(*m), r),
             Guard::Ulps(x, y, e, u, r) => format!(".ulps {} {} {} {} {}", nm(*x), nm(*y), nm(*e), u, r),
